@@ -10,9 +10,10 @@ import Mfi.Driver.AdminD
 import Mfi.Driver.AccountD
 import Mfi.Driver.TxD
 import Mfi.Driver.RiskD
+import Mfi.Driver.TransferD
 open Mfi.Driver
 
-def handlers : List (String → List Int → Option String) := [fxOp, panicOp, irOp, igOp, bankOp, tokOp, gateOp, authOp, adminOp, acctOp, txOp, riskOp, liqOp]
+def handlers : List (String → List Int → Option String) := [fxOp, panicOp, irOp, igOp, bankOp, tokOp, gateOp, authOp, adminOp, acctOp, txOp, riskOp, liqOp, xferOp]
 
 def stepLine (line : String) : String :=
   match line.trimAscii.toString.splitOn " " with
